@@ -95,6 +95,7 @@ type Node struct {
 	blockDB dbm.DB
 	evsw    types.EventSwitch
 	conf    *viper.Viper
+	Inc     int // number of restarts of this process
 	Commits int // number of OnCommit hook calls (application commits) seen by this process
 	Applied []int64
 }
@@ -118,6 +119,7 @@ type Sim struct {
 	PartSize int
 	Log      []string
 	Notes    []string
+	probeSeq int
 }
 
 // New builds an N-validator system with the given powers; byz lists Byzantine validator indices (1-based).
@@ -453,7 +455,7 @@ func (s *Sim) nameNewBlocks(n *Node) {
 					blk := readBlock(ps, &nn, &err2)
 					if blk != nil {
 						full := blk.MakePartSet(s.PartSize)
-						s.register([]interface{}{"H", pend.Height, pend.Round, int64(n.Idx)}, blk, full)
+						s.register([]interface{}{"H", pend.Height, pend.Round, int64(n.Idx), int64(n.Inc)}, blk, full)
 					}
 				}
 				pend = nil
@@ -565,8 +567,17 @@ func (s *Sim) Deliver(i int, m Msg) error {
 		return err
 	}
 	peer := fmt.Sprintf("peer%d", m.By)
+	_, known := s.Ledger[m.Key()]
+	before := ""
+	if !known {
+		before = s.digest(i)
+	}
 	n.CS.VerifHandlePeer(r, peer)
 	s.after(n)
+	// an honest node gossips what it accepted: the adversary's message is visible to everybody from now on
+	if !known && s.digest(i) != before {
+		s.Ledger[m.Key()] = r
+	}
 	return nil
 }
 
@@ -605,6 +616,7 @@ func (s *Sim) Crash(i int) {
 // Restart builds a new process on the node's directory and runs OnStart (catchupReplay).
 func (s *Sim) Restart(i int) error {
 	n := s.Nodes[i]
+	n.Inc++
 	if err := s.boot(n, false); err != nil {
 		return err
 	}
@@ -630,4 +642,241 @@ func CopyDir(src, dst string) error {
 		}
 		return ioutil.WriteFile(t, b, info.Mode())
 	})
+}
+
+// walHead is the path of the node's current WAL file.
+func (n *Node) walHead() string { return filepath.Join(n.Dir, "cs.wal", "wal") }
+
+// CrashTorn kills the process while it was writing its last WAL record: the last line of the WAL is cut
+// somewhere inside (cut = number of bytes of that line that made it to disk, clamped to the line length - 1).
+// If the last line is complete it is cut so that at least its final newline is missing.
+func (s *Sim) CrashTorn(i int, cut int) error {
+	n := s.Nodes[i]
+	s.Crash(i)
+	b, err := ioutil.ReadFile(n.walHead())
+	if err != nil {
+		return err
+	}
+	if len(b) == 0 {
+		return nil
+	}
+	end := len(b)
+	if b[end-1] == '\n' {
+		end--
+	}
+	start := bytes.LastIndexByte(b[:end], '\n') + 1
+	lineLen := end - start
+	if cut < 0 {
+		cut = 0
+	}
+	if cut > lineLen-1 {
+		cut = lineLen - 1
+	}
+	if cut < 0 {
+		cut = 0
+	}
+	return ioutil.WriteFile(n.walHead(), b[:start+cut], 0600)
+}
+
+// Pending lists the ledger messages whose delivery would still change node i (used by the fair drain scheduler).
+func (s *Sim) digest(i int) string {
+	b, _ := json.Marshal(s.SpecState(i))
+	return string(b)
+}
+
+// Drain runs a fair, synchronous schedule on the real nodes: own queues first, then every visible message to
+// every node, and timers fire only when nothing else changes anything.  It returns the number of scheduler
+// rounds used, or an error if the honest nodes do not all reach `height` committed blocks within maxRounds.
+func (s *Sim) Drain(height int64, maxRounds int) (int, error) {
+	for _, i := range s.HonestIdx() {
+		if !s.Nodes[i].Up {
+			if err := s.Restart(i); err != nil {
+				s.Notes = append(s.Notes, fmt.Sprintf("restart %d: %v", i, err))
+			}
+		}
+	}
+	done := func() bool {
+		for _, i := range s.HonestIdx() {
+			if s.Nodes[i].Store.Height() < height {
+				return false
+			}
+		}
+		return true
+	}
+	for round := 0; round < maxRounds; round++ {
+		if done() {
+			return round, nil
+		}
+		progress := false
+		for _, i := range s.HonestIdx() {
+			for len(s.Nodes[i].IQ) > 0 {
+				if _, err := s.Internal(i); err != nil {
+					return round, err
+				}
+				progress = true
+			}
+		}
+		// deliver everything visible (sorted for determinism)
+		keys := make([]string, 0, len(s.Ledger))
+		for k := range s.Ledger {
+			keys = append(keys, k)
+		}
+		sort.Strings(keys)
+		for _, i := range s.HonestIdx() {
+			n := s.Nodes[i]
+			for _, k := range keys {
+				before := s.digest(i)
+				m := s.Ledger[k]
+				am, err := s.Abstract(0, m)
+				if err != nil {
+					continue
+				}
+				if am.T == "V" && am.By == i {
+					continue
+				}
+				n.CS.VerifHandlePeer(m, fmt.Sprintf("peer%d", am.By))
+				s.after(n)
+				if s.digest(i) != before {
+					progress = true
+				}
+			}
+		}
+		for _, i := range s.HonestIdx() {
+			n := s.Nodes[i]
+			for len(n.Tocks) > 0 {
+				t := n.Tocks[0]
+				n.Tocks = n.Tocks[1:]
+				before := s.digest(i)
+				n.CS.VerifHandleTimeout(t)
+				s.after(n)
+				if s.digest(i) != before {
+					progress = true
+				}
+			}
+		}
+		if progress {
+			continue
+		}
+		fired := false
+		for _, i := range s.HonestIdx() {
+			if _, err := s.Fire(i); err == nil {
+				fired = true
+			}
+		}
+		if !fired {
+			return round, fmt.Errorf("wedged: no message changes any node, no timer is running, and not every honest node has committed height %d", height)
+		}
+	}
+	if done() {
+		return maxRounds, nil
+	}
+	return maxRounds, fmt.Errorf("no decision at height %d within %d fair scheduler rounds", height, maxRounds)
+}
+
+// RealStartProbe clones node i's directory as it is on disk, starts a REAL ConsensusState on the clone with the real
+// OnStart (receiveRoutine running), waits until it is quiescent, and returns its projection together with the
+// projection of a second clone restarted through the synchronous shim path and drained.  Both must agree.
+func (s *Sim) RealStartProbe(i int) (real, sync map[string]interface{}, err error) {
+	src := s.Nodes[i].Dir
+	mk := func(tag string) (*Node, error) {
+		dst := filepath.Join(s.Dir, fmt.Sprintf("probe-%s-%d", tag, i))
+		os.RemoveAll(dst)
+		if err := CopyDir(src, dst); err != nil {
+			return nil, err
+		}
+		s.probeSeq++
+		n := &Node{Idx: i, Dir: dst, Inc: 1000 + s.probeSeq}
+		return n, s.boot(n, false)
+	}
+	saved := s.Nodes[i]
+	defer func() { s.Nodes[i] = saved }()
+	// sync path
+	n1, err := mk("sync")
+	if err != nil {
+		return nil, nil, err
+	}
+	s.Nodes[i] = n1
+	n1.CS.VerifStartSync()
+	s.after(n1)
+	for len(n1.IQ) > 0 {
+		m := n1.IQ[0]
+		n1.IQ = n1.IQ[1:]
+		n1.CS.VerifHandleInternal(m)
+		s.after(n1)
+	}
+	sync = normNew(s.SpecState(i)).(map[string]interface{})
+	s.shutdown(n1)
+	os.RemoveAll(n1.Dir)
+	// real path
+	n2, err := mk("real")
+	if err != nil {
+		return nil, sync, err
+	}
+	s.Nodes[i] = n2
+	if _, err := n2.CS.Start(); err != nil {
+		s.shutdown(n2)
+		os.RemoveAll(n2.Dir)
+		return nil, sync, err
+	}
+	// quiescence: the internal queue stays empty and the round state stops changing
+	last := ""
+	stable := 0
+	for k := 0; k < 400 && stable < 5; k++ {
+		time.Sleep(5 * time.Millisecond)
+		cur := fmt.Sprintf("%d/%v", n2.CS.VerifInternalLen(), n2.CS.GetRoundState().StringShort())
+		if cur == last && n2.CS.VerifInternalLen() == 0 {
+			stable++
+		} else {
+			stable = 0
+		}
+		last = cur
+	}
+	real = normNew(s.SpecState(i)).(map[string]interface{})
+	n2.CS.Stop()
+	select {
+	case <-waitCh(n2.CS):
+	case <-time.After(2 * time.Second):
+	}
+	n2.CS = nil // WAL already stopped by receiveRoutine
+	s.shutdown(n2)
+	os.RemoveAll(n2.Dir)
+	return real, sync, nil
+}
+
+func waitCh(cs *pbft.ConsensusState) chan struct{} {
+	c := make(chan struct{})
+	go func() { cs.Wait(); close(c) }()
+	return c
+}
+
+// normNew replaces the name of a block created inside a probe (fresh time stamp, so a fresh hash in every run)
+// by the placeholder ["NEW"].
+func normNew(v interface{}) interface{} {
+	switch x := v.(type) {
+	case []interface{}:
+		if len(x) > 0 {
+			if t, ok := x[0].(string); ok {
+				if t == "?" {
+					return []interface{}{"NEW"}
+				}
+				if t == "H" && len(x) == 5 {
+					if inc, ok := x[4].(int64); ok && inc >= 1000 {
+						return []interface{}{"NEW"}
+					}
+				}
+			}
+		}
+		o := make([]interface{}, len(x))
+		for i, e := range x {
+			o[i] = normNew(e)
+		}
+		return o
+	case map[string]interface{}:
+		o := map[string]interface{}{}
+		for k, e := range x {
+			o[k] = normNew(e)
+		}
+		return o
+	}
+	return v
 }
